@@ -252,6 +252,8 @@ def acc_C16(w):
                         expected[mid] = False
                         n_halts[ri] += 1
                         w.wit.inc("halt_triggered")
+                        if len(fills) >= 2:
+                            w.wit.inc("halt_after_multi_fill_round")
                         if n_halts[ri] >= 2:
                             w.wit.inc("second_halt_of_a_rule")
                         if t + ru["L"] > last_step_of_session[si]:
